@@ -305,6 +305,10 @@ def enum_client(tier):
         for vn in VERS:
             for op in ("get", "upload"):
                 yield {"mode": mode, "v": vn, "op": op}
+    # the library's other client: the reverse proxy fetching from its upstream
+    for vn in VERS:
+        for strip in (False, True):
+            yield {"mode": "via-proxy", "v": vn, "op": "get", "strip": strip}
 
 
 def run_client(case: dict):
@@ -339,6 +343,8 @@ def run_client(case: dict):
                 from nauyaca.security.tls import create_client_context
 
                 client = GeminiClient(timeout=10, tofu_db_path=Path(d) / "tofu.db", ssl_context=create_client_context())
+            elif case["mode"] == "via-proxy":
+                client = None
             else:
                 client = GeminiClient(timeout=10, trust_on_first_use=False)
         finally:
@@ -347,7 +353,20 @@ def run_client(case: dict):
             else:
                 os.environ["SSL_CERT_FILE"] = old
         try:
-            if case["op"] == "get":
+            if case["mode"] == "via-proxy":
+                import inspect
+
+                from nauyaca.protocol.request import GeminiRequest
+                from nauyaca.server.proxy import ProxyHandler
+
+                ph = ProxyHandler(upstream="gemini://localhost", prefix="/app/" if case.get("strip") else "/",
+                                  strip_prefix=bool(case.get("strip")), timeout=10)
+                r = ph.handle(GeminiRequest.from_line("gemini://front.example/app/x?secret=1"))
+                if inspect.isawaitable(r):
+                    r = await r
+                if r.status != 20:
+                    raise RuntimeError(f"proxy answered {r.status} {r.meta!r}")  # the upstream was not usable
+            elif case["op"] == "get":
                 r = await client.get("gemini://localhost/x?secret=1")
             else:
                 r = await client.upload("gemini://localhost/up", b"payload", token="tok")
